@@ -301,10 +301,104 @@ def h_multi_signer(ctx):
     return Outcome(f"multi:{'ok' if not vs else 'bad'}", vs, nontrivial=(combo, supplied, kid_pos, pname))
 
 
+# ------------------------------------------------------------------ E3: two JWS operations at the same time
+T_OPS = [("HS256", "oct32", 0, "compact"), ("HS256", "oct32", 1, "compact"), ("HS512", "oct64", 0, "flattened"), ("ES256", "P-256", 0, "compact"),
+         ("ES256", "P-256", 1, "general"), ("RS256", "rsa", 0, "compact"), ("PS256", "rsa", 0, "compact"), ("EdDSA", "Ed25519", 0, "7797-compact")]
+
+
+def h_threads(ctx):
+    from .. import conc
+    from joserfc import jws, rfc7797
+    direction = ctx.choose("direction", ["sign-and-verify", "sign", "verify"] if config.thorough() else ["sign-and-verify"])
+
+    def payload_of(spec):
+        return ("payload-of-%s-%s-%d" % spec[:3]).encode()
+
+    def ref_tok(spec):
+        alg, kind, which, path = spec
+        jwk = scen.key(kind, which)
+        hdr = {"alg": alg}
+        b64mode = True
+        if path.startswith("7797"):
+            hdr.update({"b64": False, "crit": ["b64"]})
+            b64mode = False
+        from ..ref.jwa import jws_sign
+        seg = b64.enc(rjws.hdr_json(hdr).encode())
+        pl = payload_of(spec)
+        sig = b64.enc(jws_sign(alg, jwk, rjws.signing_input(seg, pl, b64mode)))
+        if path in ("compact", "7797-compact"):
+            return seg + "." + (b64.enc(pl) if b64mode else pl.decode()) + "." + sig
+        mem = {"protected": seg, "signature": sig}
+        return {"payload": b64.enc(pl), **mem} if path == "flattened" else {"payload": b64.enc(pl), "signatures": [mem]}
+
+    def sign(spec, sh):
+        alg, kind, which, path = spec
+        key = sh[(kind, which)]
+        pl = payload_of(spec)
+        if path == "compact":
+            return call(jws.serialize_compact, {"alg": alg}, pl, key, algorithms=[alg])
+        if path == "7797-compact":
+            return call(rfc7797.serialize_compact, {"alg": alg, "b64": False, "crit": ["b64"]}, pl, key, algorithms=[alg])
+        member = {"protected": {"alg": alg}}
+        return call(jws.serialize_json, member if path == "flattened" else [member], pl, key, algorithms=[alg])
+
+    def verify(spec, tok, sh):
+        alg, kind, which, path = spec
+        key = sh[(kind, which)]
+        if path == "compact":
+            return call(lambda: bytes(jws.deserialize_compact(tok, key, algorithms=[alg]).payload))
+        if path == "7797-compact":
+            return call(lambda: bytes(rfc7797.deserialize_compact(tok, key, algorithms=[alg]).payload))
+        return call(lambda: bytes(jws.deserialize_json(copy.deepcopy(tok), key, algorithms=[alg]).payload))
+
+    def op(spec):
+        def run(sh):
+            out = {"spec": spec}
+            if direction != "verify":
+                out["signed"] = sign(spec, sh)
+            if direction == "verify":
+                out["verified"] = verify(spec, ref_tok(spec), sh)
+            elif direction == "sign-and-verify" and out["signed"].ok:
+                out["verified"] = verify(spec, out["signed"].value, sh)
+            return out
+        return (f"{direction} {spec[0]} {spec[3]} key {spec[1]}/{spec[2]}", run)
+
+    def judge(name, o, sh):
+        alg, kind, which, path = o["spec"]
+        jwk = scen.key(kind, which)
+        pub = jwk if jwk["kty"] == "oct" else rjwk.public_of(jwk)
+        bad = []
+        fam = alg[:2] if alg != "EdDSA" else alg
+        if "signed" in o:
+            r = o["signed"]
+            if not r.ok:
+                bad.append((f"signing fails while another JWS call runs: {fam}*", f"{name}: {r.exc!r}"))
+            else:
+                try:
+                    if isinstance(r.value, str):
+                        _, p = rjws.verify_compact(r.value, pub)
+                    else:
+                        _, p = rjws.verify_json(r.value, pub)
+                    if p != ("payload-of-%s-%s-%d" % (alg, kind, which)).encode():
+                        bad.append((f"a token signed while another JWS call runs carries another payload: {fam}*", f"{name}: {p!r}"))
+                except (RefError, ValueError) as e:
+                    bad.append((f"a token signed while another JWS call runs does not verify under the signer's key (reference verifier): {fam}*", f"{name}: {e!r}"))
+        if "verified" in o:
+            r = o["verified"]
+            if not r.ok or r.value != ("payload-of-%s-%s-%d" % (alg, kind, which)).encode():
+                bad.append((f"a valid token is rejected or yields another payload while another JWS call runs: {fam}*", f"{name}: {r.value!r} {r.exc!r}"))
+        return bad or None
+
+    def shared():
+        return {(k, w): A.jkey(scen.key(k, w), "dict") for _, k, w, _ in T_OPS}
+    return conc.pairs(ctx, [op(s_) for s_ in T_OPS], shared, judge, thorough=config.thorough())
+
+
 _p2 = Part("ecdsa-leading-zero", h_ecdsa_lz, split_depth=1)
 _p3 = Part("general-multi-signer", h_multi_signer, split_depth=2)
 _p3.single_bucket_ok = True
 PARTS = [
+    Part("thread-schedules", h_threads, bound={"quick": 1, "thorough": 2}, split_depth=3, budget={"quick": 200, "thorough": 3000}, engine="E3"),
     Part("roundtrip", h_roundtrip, bound={"quick": 0, "thorough": 0}, split_depth=2, budget={"quick": 120, "thorough": 1500}),
     _p2, _p3,
 ]
